@@ -64,6 +64,7 @@ type content struct {
 	Key    int    `json:"key,omitempty"`    // key id (or the key a prefix was cut from)
 	Cut    int    `json:"cut,omitempty"`    // prefix: bytes kept
 	Garb   int    `json:"garb,omitempty"`   // garbage variant
+	Pad    bool   `json:"padded,omitempty"` // cert: followed by ~4 MiB of PEM blocks the parser skips (reading the file takes milliseconds)
 }
 
 func certC(s int64) content { return content{Kind: "cert", Serial: s} }
@@ -89,6 +90,9 @@ func (c content) String() string {
 func (p *pairPool) bytes(c content) []byte {
 	switch c.Kind {
 	case "cert":
+		if c.Pad {
+			return append(append([]byte{}, p.certPEM[c.Serial]...), slowTail...)
+		}
 		return p.certPEM[c.Serial]
 	case "key":
 		return p.keyPEM[c.Key]
@@ -165,6 +169,10 @@ type history struct {
 	Layout string `json:"layout"` // plain | k8s
 	Init   int64  `json:"initial_serial"`
 	Steps  []step `json:"steps"`
+	// SlowInitial: the initial certificate file carries a long tail of PEM blocks that are not
+	// certificates (ignored by the parser), so that reading the INITIAL pair takes tens of
+	// milliseconds - whatever reads it around start-up overlaps with the first update steps
+	SlowInitial bool `json:"slow_initial_parse,omitempty"`
 }
 
 func (h *history) key() string {
@@ -534,6 +542,18 @@ func genK8s(rng *rand.Rand, pool *pairPool) *history {
 }
 
 // directed returns the canonical scenarios, independent of the seed.
+func flipFlop(n int) []step {
+	var st []step
+	for i := 0; i < n; i++ {
+		if i%2 == 0 {
+			st = append(st, step{Op: "k8s-update", C: content{Kind: "cert", Serial: 1002, Pad: true}, C2: keyC(3)})
+		} else {
+			st = append(st, step{Op: "k8s-update", C: content{Kind: "garbage", Garb: 1}, C2: keyC(2)})
+		}
+	}
+	return append(st, step{Op: "k8s-update", C: certC(1003), C2: keyC(3)})
+}
+
 func directed(pool *pairPool) []*history {
 	C, K := certC, keyC
 	w := func(p string, c content) step { return step{Op: "write", Path: p, C: c, PauseAfter: 1} }
@@ -556,6 +576,13 @@ func directed(pool *pairPool) []*history {
 		{Name: "garbage-then-same-key-new-cert-by-rename", Layout: "plain", Init: 1001, Steps: []step{pause(w("cert", garb), 4), rn("cert", C(2001))}},
 		{Name: "same-key-new-cert-inplace", Layout: "plain", Init: 1002, Steps: []step{w("cert", C(2002))}},
 		{Name: "mismatched-key-and-back", Layout: "plain", Init: 1001, Steps: []step{pause(w("key", K(3)), 4), settle(w("key", K(1))), w("cert", C(2001))}},
+		{Name: "rotate-by-rename-right-after-start", Layout: "plain", Init: 1001, SlowInitial: true, Steps: []step{rn("key", K(2)), rn("cert", C(1002))}},
+		{Name: "rotate-by-rename-cert-first-right-after-start", Layout: "plain", Init: 1001, SlowInitial: true, Steps: []step{rn("cert", C(1002)), rn("key", K(2))}},
+		{Name: "rotate-in-place-right-after-start", Layout: "plain", Init: 1003, SlowInitial: true, Steps: []step{w("cert", C(1004)), w("key", K(4))}},
+		// torn reads: the directory flips between {C1002 (slow to read), K3 - not its key} and {garbage, K2 - the
+		// key of C1002}: certificate 1002 and its key are never on the two paths together, a reload that reads
+		// the certificate before a swap and the key after it would put exactly that pair together (D22)
+		{Name: "k8s-flip-flop-cert-and-its-key-never-together", Layout: "k8s", Init: 1001, Steps: flipFlop(14)},
 		{Name: "k8s-three-updates", Layout: "k8s", Init: 1001, Steps: []step{settle(k8(C(1002), K(2))), settle(k8(C(1003), K(3))), k8(C(1004), K(4))}},
 		{Name: "k8s-broken-updates-then-good", Layout: "k8s", Init: 1001, Steps: []step{k8(C(1002), K(3)), k8(garb, K(2)), k8(C(1002), content{Kind: "empty"}), k8(C(1002), K(2))}},
 		{Name: "k8s-same-key-new-cert", Layout: "k8s", Init: 1003, Steps: []step{k8(C(2003), K(3))}},
